@@ -31,6 +31,33 @@ def run(ctx):
     precs += prism_eval.pick(grown, 8 if quick else 150, ctx.seed)
     ctx.extra["prisms_with_triangulated_caps"] = len(precs)
     prism_eval.replay(ctx, prism_eval.build_cases(precs, ctx.tier, ctx.seed, variant="tri"))
+    # Polyhedron copies of convex solids: vertices + outward facet cycles of the lattice polytopes of spec/Convex3.tla (faces
+    # with 3..n corners: triangles, trapezoids, kites, pentagons, ...), exact measures from the same records as C01
+    from .. import convex_driver as cd
+    from .. import convex_eval
+    from ..placement import palette
+    from ..pool import pmap
+    import json
+    crecs = cd.emit(ctx, "U12", 6 if quick else 8)
+    if not quick:
+        crecs += cd.emit(ctx, "S9", 30, simulate=20, depth=27, minpts=9)
+    else:
+        crecs = [r for r in crecs if any(len(f["cyc"]) > 3 for f in r["facets"])][::3]
+    ccases = []
+    for r in crecs:
+        pal = palette(7, ctx.tier)
+        k = cd.h(r["v"], ctx.seed)
+        for ip, pl in enumerate([pal[0], pal[1 + k % (len(pal) - 1)]] if quick else pal):
+            ccases.append({"rec": r, "pl": pl.to_json(), "shift": (k + ip) % 3})
+    for case, (mism, st) in zip(ccases, pmap(convex_eval.eval_copy, ccases)):
+        ctx.case(("copy", json.dumps(case["rec"]["v"]), json.dumps(case["pl"]), case["shift"]), nontrivial=True,
+                 sample={"vertices": case["rec"]["v"], "facets": [f["cyc"] for f in case["rec"]["facets"]], "placement": case["pl"]})
+        ctx.traces += 1
+        for kk, w in st.get("maxrel", {}).items():
+            ctx.maxrel[kk] = max(ctx.maxrel.get(kk, 0.0), w)
+        for sig, detail in mism:
+            ctx.violation(sig, detail)
+    ctx.extra["polyhedron_copies_of_convex_polytopes"] = len(crecs)
     return ctx.finish(rule=RULE, assumptions=[
         "inputs are voxel-solid boundary meshes (unit-square faces) under rational similarity placements",
         "tolerances of DESIGN.md 4.3"])
